@@ -109,9 +109,10 @@ PROPS["C13"]["rule"] = PROV_RULE + "; isolation stream: 13 consumers (ids 0..12,
 PROPS["C20"]["streams"] = [LIFE, INFRACTION]
 PROPS["C05"]["streams"].append(ISOLATION)
 PROPS["C06"]["streams"].append(ISOLATION)
-PROPS["C01"]["streams"] = [VALSET, CONSUMER, EPOCH, ISOLATION]
+TWOCHAIN = dict(name="twochain", quick=(4, 500), thorough=(20, 3000))
+PROPS["C01"]["streams"] = [VALSET, CONSUMER, EPOCH, ISOLATION, TWOCHAIN]
 PROPS["C01"]["fields"] = r"^(diff|accum|cinit|applycc)\.|^cons\.(cc|pendch|cend|cinit)|^end\.(sent|valupd)|^c\d+\.(pend|valset)"
-PROPS["C01"]["rule"] += "; " + CONS_RULE
+PROPS["C01"]["rule"] += "; " + CONS_RULE + "; twochain stream: the packets the real provider SENDS for one consumer (after a real channel handshake) are relayed in order, 0..10 at a time, with consumer blocks in between, to a real consumer keeper started from the provider's genesis; key assignments, opt-ins/outs, stake changes, jailing meanwhile"
 
 REWARDS = dict(name="rewards", quick=(6, 500), thorough=(28, 3000))
 CREWARDS = dict(name="crewards", quick=(6, 600), thorough=(28, 4000))
